@@ -115,6 +115,12 @@ class CountingFile:
             self.log.append((off, length, len(data)))
             return data
 
+    def readinto(self, b):
+        """The other way of reading a binary file object: same log, same faults, same position rules."""
+        data = self.read(len(b))
+        b[:len(data)] = data
+        return len(data)
+
     def close(self):
         self._f.close()
 
